@@ -913,6 +913,36 @@ func ctxOperator(m *model.Model, s *ob.Set, fn *ssa.Function, nan map[*ssa.Funct
 		}
 	}
 	s.Check(t2 == "", "CTX(T2)", name, pos, "operates on c.apply(z)", t2)
+	// … and with the context's precision, nothing else: a SetPrec in the operation itself is given
+	// the context's precision as it is (apply written out), not one computed from it — taking the
+	// result at prec+2 and cutting it back with a second SetPrec rounds twice
+	{
+		bad := ""
+		for _, b := range fn.Blocks {
+			if !live[b.Index] {
+				continue
+			}
+			for _, in := range b.Instrs {
+				call, ok := in.(*ssa.Call)
+				if !ok || len(call.Call.Args) != 2 {
+					continue
+				}
+				cal := model.Unthunk(call.Call.StaticCallee())
+				if cal == nil || m.FuncName(cal) != "(*Decimal).SetPrec" {
+					continue
+				}
+				if r := m.RefOf(call.Call.Args[0]); r.Fresh && r.Params == 0 && !r.Unknown {
+					continue // a temporary of the operation's own
+				}
+				if !derivesFromCtxField(m, call.Call.Args[1], "prec") {
+					bad = m.InstrPos(in) + ": the result variable is given a precision that is not the context's own (computed from it, or from elsewhere): the operation then rounds to another precision than the context's, and bringing it back afterwards is a second rounding"
+				}
+			}
+		}
+		if bad != "" {
+			s.Bad("CTX(T2)", name+"/precision", pos, bad)
+		}
+	}
 
 	// ---- T3 / T4
 	var closure *ssa.Function
